@@ -214,7 +214,7 @@ func (ex *Exec) doCall(fr *Frame, call *ssa.Call, st *State) []Result {
 		return ex.callFunction(fr, f.Fn, args, f.Bindings, st, call)
 	}
 	ex.warn("call of unknown function value in %s: results unconstrained, state kept", fr.fn.Name())
-	return []Result{{st, ex.freshResults(st, c.Signature())}}
+	return []Result{{st, ex.freshResults(st, c.Signature()), nil}}
 }
 
 func (ex *Exec) freshResults(st *State, sig *types.Signature) Val {
@@ -238,7 +238,25 @@ func (ex *Exec) callBuiltinClosure(f *FuncV, args []Val, st *State) []Result {
 		parent := f.Data[1].(*CtxV)
 		w := *st.worlds[child.World]
 		st.worlds[parent.World] = &w
-		return []Result{{st, nil}}
+		return []Result{{st, nil, nil}}
+	}
+	if strings.HasPrefix(f.Builtin, "param:") {
+		var ts []*Term
+		for i, a := range args {
+			ts = append(ts, ex.asTerm(st, a, f.Sig.Params().At(i).Type()))
+		}
+		rs := ex.externalUF("fp_"+strings.TrimPrefix(f.Builtin, "param:"), f.Sig, nil, ts)
+		switch len(rs) {
+		case 0:
+			return []Result{{st, nil, nil}}
+		case 1:
+			return []Result{{st, rs[0], nil}}
+		}
+		tv := &TupleV{}
+		for _, r := range rs {
+			tv.Elems = append(tv.Elems, r)
+		}
+		return []Result{{st, tv, nil}}
 	}
 	panic("unknown builtin closure " + f.Builtin)
 }
@@ -337,12 +355,12 @@ func (ex *Exec) callFunction(fr *Frame, fn *ssa.Function, args []Val, bindings [
 	}
 	if len(ex.callStack) > ex.inlineMax {
 		ex.unsupp("inline depth exceeded at %s", fn.Name())
-		return []Result{{st, ex.freshResults(st, fn.Signature)}}
+		return []Result{{st, ex.freshResults(st, fn.Signature), nil}}
 	}
 	for _, f := range ex.callStack {
 		if f == fn {
 			ex.unsupp("recursive call of %s", fn.Name())
-			return []Result{{st, ex.freshResults(st, fn.Signature)}}
+			return []Result{{st, ex.freshResults(st, fn.Signature), nil}}
 		}
 	}
 	base := len(st.pc)
@@ -586,13 +604,13 @@ func (ex *Exec) mergeResults(base int, rs []Result, sig *types.Signature) []Resu
 			ret = tv
 		}
 	}
-	return []Result{{m, ret}}
+	return []Result{{m, ret, nil}}
 }
 
 // ---------------------------------------------------------------- Go builtins
 
 func (ex *Exec) goBuiltin(fr *Frame, name string, args []Val, c *ssa.CallCommon, st *State, call *ssa.Call) []Result {
-	one := func(v Val) []Result { return []Result{{st, v}} }
+	one := func(v Val) []Result { return []Result{{st, v, nil}} }
 	switch name {
 	case "len":
 		switch x := args[0].(type) {
@@ -684,11 +702,13 @@ func (ex *Exec) appendOp(st *State, a, b Val, t types.Type) Val {
 		o := st.NewObj("append", nil, res)
 		return &SliceV{Obj: o, Off: IntLit(0), Len: Add(sa.Len, sb.Len), Elem: et}
 	}
-	arrB := ex.shiftedArr(st, sb)
-	res := Det("appended", ArraySort(SInt, es), arrA, sa.Len, arrB, sb.Len)
-	i := BVar("i!ap", SInt)
-	st.AssumeDef(Forall([]*Term{i}, Implies(And(Le(IntLit(0), i), Lt(i, sa.Len)), Eq(Select(res, i), Select(arrA, i))), []*Term{Select(res, i)}))
-	st.AssumeDef(Forall([]*Term{i}, Implies(And(Le(IntLit(0), i), Lt(i, sb.Len)), Eq(Select(res, Add(sa.Len, i)), Select(arrB, i))), []*Term{Select(arrB, i)}))
+	arrB := ex.content(st, sb.Obj).(*Term)
+	res := Det("appended", ArraySort(SInt, es), arrA, sa.Len, arrB, sb.Off, sb.Len)
+	k := BVar("k!ap", SInt)
+	st.AssumeDef(Forall([]*Term{k}, And(
+		Implies(And(Le(IntLit(0), k), Lt(k, sa.Len)), Eq(Select(res, k), Select(arrA, k))),
+		Implies(And(Le(sa.Len, k), Lt(k, Add(sa.Len, sb.Len))), Eq(Select(res, k), Select(arrB, Add(sb.Off, Sub(k, sa.Len)))))),
+		[]*Term{Select(res, k)}))
 	o := st.NewObj("append", nil, res)
 	return &SliceV{Obj: o, Off: IntLit(0), Len: Add(sa.Len, sb.Len), Elem: et}
 }
